@@ -22,15 +22,18 @@ def main(tier):
     prod = funcs.produce("drv_down", [[seed, sh, ns, 16 if q else 1] for sh in range(ns)])
     funcs.san_failures(chk, prod, "down")
     files = [p for p, n, rc, err in prod if n > 0]
+    _, dn = funcs.survey(chk, files, lambda ev: ev.get("e") == "Down" and ev.get("glen", 0) > 2)
     out = funcs.judge_files(chk, "TraceDownstream", "TraceDownstream.cfg", files, "down",
                             sigfn=lambda ev: "qt%s:%s:%s" % (ev.get("qt"), ev.get("codec"),
                                                             "differs" if ev.get("glen", 0) <= ev.get("len", 0) else "longer"))
     chk.cov["evaluations"] = out["events"]
     chk.cov["sweeps"] = 7 * 5 * 2 * 4 - 4 * 2 * 4
-    chk.cov["exhaustive"] = ("every payload length 2..4096" if not q else "payload lengths 2..40, every 16th, and boundaries") + \
+    chk.cov["exhaustive"] = not q
+    chk.cov["exhaustive_what"] = ("every payload length 2..4096" if not q else "payload lengths 2..40, every 16th, and boundaries") + \
         " x 7 record types x legal downstream codecs x 2 name lengths x 4 contents"
-    chk.cov["distinct_nontrivial"] = out["events"]
-    chk.cov["rule"] = "one evaluation = one payload pushed through the real write_dns -> read_dns_withq pipe and judged by TLC"
+    chk.cov["distinct_nontrivial"] = dn
+    chk.cov["rule"] = ("one evaluation = one payload pushed through the real write_dns -> read_dns_withq pipe and judged by TLC; "
+                       "non-trivial = distinct events in which more than 2 bytes were delivered")
     chk.assumptions += ["TLC/JVM trusted; the driver reaches the static functions by #including iodined.c / client.c"]
     return chk.finish()
 
